@@ -1,5 +1,6 @@
 /- C12 — path decoding and normalisation match the documented semantics. -/
 import HtpModel.Lemmas.Normalize
+import HtpModel.Pinned.Eq
 
 namespace Htp.C12
 open Htp.Decode Htp.Gen
@@ -66,5 +67,11 @@ theorem C12_x2c_table : ∀ b : UInt8, Htp.Gen.x2cLo b = x2cDigit b ∧ Htp.Gen.
   decide +kernel
 
 example : Htp.Gen.x2cHi 0x34 + Htp.Gen.x2cLo 0x31 = 0x41 ∧ Htp.Gen.x2cSeparable = true := by decide
+
+/-- **C12 (the decoder tables are the reviewed ones)**: the UTF-8 automata, the best-fit map, the x2c tables and the decoder settings of all
+    nine personalities, regenerated from the current source on every run, equal their reviewed snapshot (lean/HtpModel/Pinned, taken
+    with tools/pin_tables.py). The model follows a regenerated table, so without this a changed table entry would be invisible to the
+    correspondence; with it the change breaks this theorem by name. -/
+theorem C12_decoder_tables_pinned : Htp.Pinned.DecoderTablesPinned := Htp.Pinned.decoderTables_pinned
 
 end Htp.C12
